@@ -25,6 +25,11 @@
      traverse_deps: cache = copy(self.initial_cache)            (once per resolver context, when its traversal starts)
      sub-context: AsyncResolveContext(graph, main_graph, initial_cache)   (the parent's initial_cache object)
      kwargs[param] = cache[Context]
+     broker.dependency_overrides: async_ctx(initial_cache, replaced_deps) builds a new DependencyGraph(target,
+     replaced_deps) for every execution and resolves that one.  The dictionary handling above does not look at the
+     graph, so the model does not either: which resolver contexts an execution creates (ATraverse i c) and which of
+     them a dependency reads from (ARead i c) are whatever the overridden graph makes them - any number, at any time.
+     User entries of custom_dependency_context (add_dependency_context) are constant and copied along with Context.
 
    No proofs in this file. *)
 From Coq Require Import List Bool Arith PeanoNat.
